@@ -94,6 +94,79 @@ Proof.
   unfold event_tkey in V. destruct (e_skey x); [discriminate|discriminate].
 Qed.
 
+
+(* ---------- re-applying a list of events: the last event of a key wins ---------- *)
+Definition has_key (k : tkey) (e : event) : bool :=
+  match event_tkey e with Some k' => tkey_eqb k' k | None => false end.
+
+Fixpoint last_with_key (k : tkey) (l : list event) : option event :=
+  match l with
+  | [] => None
+  | e :: r => match last_with_key k r with
+              | Some x => Some x
+              | None => if has_key k e then Some e else None
+              end
+  end.
+
+Lemma smap_get_set_same m k e : smap_get (smap_set m k e) k = Some e.
+Proof.
+  induction m as [|[k0 e0] r IH]; simpl.
+  - rewrite (proj2 (tkey_eqb_eq k k) eq_refl). reflexivity.
+  - destruct (tkey_eqb k0 k) eqn:E; simpl.
+    + rewrite (proj2 (tkey_eqb_eq k k) eq_refl). reflexivity.
+    + rewrite E. exact IH.
+Qed.
+
+Lemma smap_get_set_other m k k' e : k' <> k -> smap_get (smap_set m k e) k' = smap_get m k'.
+Proof.
+  intro N. induction m as [|[k0 e0] r IH]; simpl.
+  - destruct (tkey_eqb k k') eqn:E; [apply tkey_eqb_eq in E; congruence|reflexivity].
+  - destruct (tkey_eqb k0 k) eqn:E; simpl.
+    + apply tkey_eqb_eq in E. subst k0.
+      destruct (tkey_eqb k k') eqn:E'; [apply tkey_eqb_eq in E'; congruence|reflexivity].
+    + destruct (tkey_eqb k0 k'); [reflexivity|exact IH].
+Qed.
+
+Lemma apply_events_get l : forall m k,
+  smap_get (apply_events m l) k =
+  match last_with_key k l with Some e => Some e | None => smap_get m k end.
+Proof.
+  unfold apply_events. induction l as [|e r IH]; intros m k; simpl; [reflexivity|].
+  rewrite IH. destruct (last_with_key k r); [reflexivity|].
+  unfold apply_event, has_key. destruct (event_tkey e) as [k'|]; [|reflexivity].
+  destruct (tkey_eqb k' k) eqn:E.
+  - apply tkey_eqb_eq in E. subst. apply smap_get_set_same.
+  - apply smap_get_set_other. intro; subst. rewrite (proj2 (tkey_eqb_eq k' k') eq_refl) in E. discriminate.
+Qed.
+
+Lemma smap_get_in m k e : smap_get m k = Some e -> In e (smap_values m).
+Proof.
+  induction m as [|[k0 e0] r IH]; simpl; [discriminate|].
+  destruct (tkey_eqb k0 k); [intro H; inversion H; auto|auto].
+Qed.
+
+(* an event that is the only one of its key in the list is the last of its key *)
+Lemma last_with_key_unique l e k :
+  In e l -> event_tkey e = Some k ->
+  (forall e', In e' l -> event_tkey e' = Some k -> e' = e) ->
+  last_with_key k l = Some e.
+Proof.
+  induction l as [|x r IH]; simpl; [tauto|]. intros Hin Hk U.
+  destruct (last_with_key k r) as [y|] eqn:L.
+  - (* y has key k and is in r *)
+    assert (Hy : In y r /\ event_tkey y = Some k).
+    { clear -L. induction r as [|z r' IHr]; simpl in L; [discriminate|].
+      destruct (last_with_key k r') eqn:L'.
+      - inversion L; subst. destruct (IHr eq_refl). split; [right; assumption|assumption].
+      - unfold has_key in L. destruct (event_tkey z) as [kz|] eqn:Ez; [|discriminate].
+        destruct (tkey_eqb kz k) eqn:E; [|discriminate]. inversion L; subst.
+        apply tkey_eqb_eq in E. subst. split; [left; reflexivity|assumption]. }
+    destruct Hy as [Hy1 Hy2]. f_equal. apply U; auto.
+  - destruct Hin as [->|Hin].
+    + unfold has_key. rewrite Hk, (proj2 (tkey_eqb_eq k k) eq_refl). reflexivity.
+    + assert (L2 : None = Some e) by (apply IH; auto). discriminate.
+Qed.
+
 Section Resolved.
   Variable allowed : event -> list event -> bool.
   Variable rejected : bytes -> bool.
@@ -116,6 +189,23 @@ Section Resolved.
   Proof.
     intro W. unfold resolve_tail, r_apply. simpl. apply apply_events_wf.
     apply auth_and_apply_wf. apply auth_and_apply_wf. exact W.
+  Qed.
+
+
+  (* the unconflicted events are applied after everything else, without auth checks *)
+  Theorem unconflicted_applied_last authmap r0 control others unconflicted :
+    exists r2, r_state (resolve_tail allowed rejected shP priv cl ud authmap r0 control others unconflicted)
+               = apply_events (r_state r2) unconflicted.
+  Proof. eexists. reflexivity. Qed.
+
+  Theorem unconflicted_event_kept authmap r0 control others unconflicted e k :
+    In e unconflicted -> event_tkey e = Some k ->
+    (forall e', In e' unconflicted -> event_tkey e' = Some k -> e' = e) ->
+    In e (result_events (resolve_tail allowed rejected shP priv cl ud authmap r0 control others unconflicted)).
+  Proof.
+    intros Hin Hk U. destruct (unconflicted_applied_last authmap r0 control others unconflicted) as [r2 E].
+    unfold result_events. rewrite E. apply smap_get_in with (k := k).
+    rewrite apply_events_get, (last_with_key_unique _ e k); auto.
   Qed.
 
   Theorem resolve_v2_new_wf v21 sets auth_events :
